@@ -304,4 +304,4 @@ def _run_body(case, ctx, p, sig, loud_short, otc_name, obs_name, created, fresh,
 
 def stages(tier):
     return [{"name": "hist", "kind": "hyp", "strategy": strategy, "run": run,
-             "examples": {"quick": 15000, "thorough": 400000}, "shards": 16}]
+             "examples": {"quick": 30000, "thorough": 400000}, "shards": 16}]
